@@ -15,12 +15,12 @@ import (
 // ---------------------------------------------------------------------------
 
 type frozenView struct {
-	known   string
-	last    int
-	seq     int
-	undet   int
-	blocks  int
-	topo    int
+	known  string
+	last   int
+	seq    int
+	undet  int
+	blocks int
+	topo   int
 }
 
 func viewOf(n *SimNode) frozenView {
@@ -253,7 +253,7 @@ type MonSuspend struct {
 	suspendedSeen map[*SimNode]bool
 }
 
-func NewMonSuspend() *MonSuspend { return &MonSuspend{suspendedSeen: map[*SimNode]bool{}} }
+func NewMonSuspend() *MonSuspend   { return &MonSuspend{suspendedSeen: map[*SimNode]bool{}} }
 func (m *MonSuspend) Name() string { return "suspend" }
 func (m *MonSuspend) AfterStep(nw *Network) {
 	n := nw.lastActor
@@ -363,8 +363,8 @@ func runC17Suspend(cs CaseSpec) *CaseResult {
 func init() {
 	register(&PropDef{
 		ID: "C17", Level: "exploration", Engine: "nodesim",
-		Rule: "two kinds of cases: (a) a real node is put into one of the states suspended-at-run-time / maintenance mode / joining / catching-up / shut down and receives ~60 valid, would-be-effective requests (EagerSyncRequests with events it lacks from an honest peer, SyncRequests, validly signed JoinRequests, FastForwardRequests, submitted transactions) while the rest of the network keeps moving; after each: known events, own sequence number, undetermined events and delivered blocks unchanged, mutating requests answered with an error, and a run-time-suspended node answers SyncRequests with exactly the events it holds beyond the requester's known map in its insertion order (oracle from the harness's record); (b) runs that lose their quorum with small suspend limits: after every heartbeat's suspension check the node must be suspended iff new undetermined events > limit x validators or it was evicted; non-trivial: >=1 suspension observed or >=30 requests judged",
-		Assumptions: []string{"submitted transactions may enter the pool of a non-babbling node (they create no event)"},
+		Rule:          "two kinds of cases: (a) a real node is put into one of the states suspended-at-run-time / maintenance mode / joining / catching-up / shut down and receives ~60 valid, would-be-effective requests (EagerSyncRequests with events it lacks from an honest peer, SyncRequests, validly signed JoinRequests, FastForwardRequests, submitted transactions) while the rest of the network keeps moving; after each: known events, own sequence number, undetermined events and delivered blocks unchanged, mutating requests answered with an error, and a run-time-suspended node answers SyncRequests with exactly the events it holds beyond the requester's known map in its insertion order (oracle from the harness's record); (b) runs that lose their quorum with small suspend limits: after every heartbeat's suspension check the node must be suspended iff new undetermined events > limit x validators or it was evicted; non-trivial: >=1 suspension observed or >=30 requests judged",
+		Assumptions:   []string{"submitted transactions may enter the pool of a non-babbling node (they create no event)"},
 		MinNontrivial: 8,
 		Cases: func(tier string, seed int64) []CaseSpec {
 			count := 40
